@@ -54,6 +54,9 @@ pub struct JetRecorder {
     pub nodes_visited: usize,
     /// kinds of the nodes that were executed
     pub kinds: std::collections::BTreeSet<&'static str>,
+    /// number of cells written by the run (estimate): the Lean model's cell memory is a function,
+    /// so its run time grows with the square of this
+    pub work: usize,
 }
 
 pub fn inner_kind<A, B, C>(i: &Inner<A, B, C>) -> &'static str {
@@ -81,6 +84,12 @@ impl ExecTracker for JetRecorder {
     fn visit_node(&mut self, node: &RedeemNode, mut input: FrameIter, output: NodeOutput) {
         self.nodes_visited += 1;
         self.kinds.insert(inner_kind(node.inner()));
+        self.work += match node.inner() {
+            Inner::Iden | Inner::Witness(_) | Inner::Word(_) | Inner::Jet(_) => node.arrow().target.bit_width(),
+            Inner::InjL(_) | Inner::InjR(_) => 1,
+            Inner::Disconnect(..) => 256 + node.arrow().source.bit_width() + node.arrow().target.bit_width(),
+            _ => 0,
+        };
         if let Inner::Jet(j) = node.inner() {
             let j: Elements = *j.as_any().downcast_ref::<Elements>().expect("Elements jet");
             let inp = Value::from_padded_bits(&mut input, &node.arrow().source).expect("jet input decodes");
